@@ -13,7 +13,7 @@ ASSUMPTIONS = ['hashlib for MD5/SHA/BLAKE2', 'own MD4/SHA-0/BLAKE references', '
 ANCHORS = [('padding.py', 'blockiterator.iterblocks'), ('blake.py', 'Blake2.iterblocks'), ('blake.py', 'Blake2.update'), ('blake.py', 'Blake.update'),
            ('sha.py', 'SHA1.update'), ('sha.py', 'SHA2.update'), ('md.py', 'MD4.update'), ('md.py', 'MD5.update'),
            ('nilsimsa.py', 'Nilsimsa.update'), ('nilsimsa.py', 'Nilsimsa.digest')]
-REQUIRED = ['refused-piece:piecewise==reference', 'fresh-object-update==reference', 'interleaved:piecewise==reference', 'piecewise==oneshot', 'piecewise==reference', 'bitcnt-after-piece', 'nilsimsa:cut==oneshot', 'nilsimsa:cut==model']
+REQUIRED = ['nilsimsa:reuse==model', 'refused-piece:piecewise==reference', 'fresh-object-update==reference', 'interleaved:piecewise==reference', 'piecewise==oneshot', 'piecewise==reference', 'bitcnt-after-piece', 'nilsimsa:cut==oneshot', 'nilsimsa:cut==model']
 NSHARDS = 14
 SAN = {'quick': (2, 40), 'thorough': (2, 40)}
 HASHES = c01.ALGS + ['blake224', 'blake256', 'blake384', 'blake512', 'blake2b', 'blake2s']
@@ -69,6 +69,8 @@ def cases(tier, rng):
                 yield {'k': 'no-initstate', 'h': name, 'j': j}
     for n in range(0, 25 if tier == 'thorough' else 17):
         yield {'k': 'nil-3pieces', 'n': n}
+    for j in range(20 if tier == 'quick' else 200):
+        yield {'k': 'nil-reuse', 'j': j}
     for n in range(0, 65 if tier == 'thorough' else 41):
         yield {'k': 'nil-allcuts', 'n': n, 'target': [None, 53, 11, 200][n % 4]}
     for j in range(40 if tier == 'quick' else 600):
@@ -190,6 +192,20 @@ def run(case, ctx, rng):
                 got = call(lambda: Nilsimsa().update(M[:c1]).update(M[c1:c2]).update(M[c2:]).digest())
                 ctx.eq('nilsimsa:cut==model', got, model, n=n, cuts=(c1, c2), M=M); cnt += 1
         ctx.exhaustive['nilsimsa: every pair of byte cuts (three pieces) of a message of %d bytes' % n] += cnt
+    elif k == 'nil-reuse':
+        # digest() ends a stream: the same object then takes a new message piecewise (after digest(), after a one-shot call)
+        from crysp.nilsimsa import Nilsimsa
+        ctx.cls(('nilsimsa-reuse', case['j'] % 4))
+        h = Nilsimsa([None, 17][case['j'] % 2])
+        t = 53 if case['j'] % 2 == 0 else 17
+        hist = []
+        for step in range(4):
+            M = rng.randbytes(rng.choice([0, 3, 10, 80])); c = rng.randrange(0, len(M) + 1)
+            if rng.random() < .3:
+                got = call(lambda: h(M)); hist.append('h(%d bytes)' % len(M))
+            else:
+                got = call(lambda: h.update(M[:c]).update(M[c:]).digest()); hist.append('update(%d).update(%d).digest()' % (c, len(M) - c))
+            ctx.eq('nilsimsa:reuse==model', got, simhash.nilsimsa(M, t), history=list(hist), M=M)
     elif k == 'nil-allcuts':
         from crysp.nilsimsa import Nilsimsa
         n, t = case['n'], case['target']
